@@ -399,13 +399,18 @@ cdef class LineProfiler:
         """
         cdef dict cmap = self._c_code_map
 
-        stats = {}
+        # Gather the entries of all code objects sharing a label (e.g. a
+        # function which was padded and re-registered, or closures created
+        # anew on each call), so that they are merged instead of
+        # overwriting each other
+        all_entries = {}
         for code in self.code_hash_map:
-            entries = []
+            entries = all_entries.setdefault(label(code), [])
             for entry in self.code_hash_map[code]:
                 entries += list(cmap[entry].values())
-            key = label(code)
 
+        stats = {}
+        for key, entries in all_entries.items():
             # Merge duplicate line numbers, which occur for branch entrypoints like `if`
             nhits_by_lineno = {}
             total_time_by_lineno = {}
